@@ -126,7 +126,7 @@ func genNormal(r *Rng) *NormalCfg {
 }
 
 func genX(r *Rng) *XCfg {
-	kinds := []string{"exponential", "poisson", "geometric", "categorical", "vnormal", "iid-normal"}
+	kinds := []string{"exponential", "poisson", "geometric", "categorical", "vnormal", "iid-normal", "negbin"}
 	c := &XCfg{Kind: kinds[r.Intn(len(kinds))]}
 	n := []int{2, 3, 4, 6, 8, 10, 16, 18}[r.Intn(8)]
 	for i := 0; i < n; i++ {
@@ -137,9 +137,18 @@ func genX(r *Rng) *XCfg {
 			c.X = append(c.X, dy(r, 0.25, 8, 2))
 		case "poisson", "geometric":
 			c.X = append(c.X, float64(r.Range(0, 9)))
+		case "negbin":
+			c.X = append(c.X, float64(r.Range(1, 9)))
 		default:
 			c.X = append(c.X, dy(r, -8, 8, 3))
 		}
+	}
+	// round 6: the weighted branch of NewObservation (gamma != nil) in half of the configurations
+	if c.Kind != "iid-normal" && r.Bool() {
+		for i := 0; i < n; i++ {
+			c.G = append(c.G, dy(r, -3, 0, 3))
+		}
+		c.G[r.Intn(n)] = 0
 	}
 	return c
 }
@@ -344,6 +353,7 @@ type RawCase struct {
 	Num   *NumericCfg `json:"numeric,omitempty"`
 	Comp  *CompCfg    `json:"comp,omitempty"`
 	ErrFlow *ErrFlowCfg `json:"errflow,omitempty"`
+	Batch *BatchCfg   `json:"batch,omitempty"`
 	Out   string      `json:"out,omitempty"`
 	Panic string      `json:"panic,omitempty"`
 }
@@ -355,6 +365,7 @@ type gen struct {
 	ow   *CaseWriter // option-matrix cases (CorrCfg.ocase)
 	sw   *CaseWriter // SAGA cases (CorrCfg.sagacase)
 	ew   *CaseWriter // error-flow cases (CorrErrFlow.ecase)
+	aw   *CaseWriter // batch-estimator cases with the observed schedule (CorrAccum.acase)
 	noTransPanics bool
 	tol  *tolWriter
 	rng  *Rng
@@ -701,6 +712,9 @@ func corr(o Opts) {
 	g.ew = NewCaseWriter(o.Out, "ecases", eheader, "emism", 60)
 	g.ew.Type = "ecase"
 	g.ew.Rule = "an error-flow case is non-trivial iff a failure is injected (mode != none)"
+	g.aw = NewCaseWriter(o.Out, "acases", aheader, "amism", 40)
+	g.aw.Type = "acase"
+	g.aw.Rule = "a batch case is non-trivial iff the pool has >= 2 threads and at least two of them hold a partial sum"
 	var ntp string
 	g.noTransPanics, ntp = bwNoTransPanics()
 	g.ow.Extra["bw_no_transitions_panics"] = map[string]interface{}{"panics": g.noTransPanics, "message": ntp}
@@ -742,6 +756,9 @@ func corr(o Opts) {
 		g.numericCases(genNumeric(r.Split()))
 		g.compCases(genComp(r.Split()))
 		g.compCases(genComp(r.Split()))
+		for j := 0; j < 3; j++ {
+			g.batchCases(genBatch(r.Split()))
+		}
 		for j := 0; j < 4; j++ {
 			g.errFlowCases(genErrFlow(r.Split(), efi))
 			efi++
@@ -765,6 +782,9 @@ func corr(o Opts) {
 	if err := g.ew.Flush(); err != nil {
 		Die("flush: %v", err)
 	}
+	if err := g.aw.Flush(); err != nil {
+		Die("flush: %v", err)
+	}
 }
 
 func (g *gen) replayInto(rc *RawCase) {
@@ -783,6 +803,8 @@ func (g *gen) replayInto(rc *RawCase) {
 		g.compCases(rc.Comp)
 	case rc.ErrFlow != nil:
 		g.errFlowCases(rc.ErrFlow)
+	case rc.Batch != nil:
+		g.batchCases(rc.Batch)
 	case rc.Em != nil && rc.Em.FailAt < 0:
 		g.emCases(rc.Em, 1)
 	case rc.Bw != nil && rc.Bw.FailRec < 0:
